@@ -65,6 +65,8 @@ NOTES = {
     ("C19", "m5"): "schedule-dependent (an SSE subscriber leaving while a write emits): caught by C13 (slow-subscriber runs + Close), C19's requests are sequential",
     ("C19", "m6"): "missed at first: no route got URL parameters; paging parameters for /export added",
     ("C10", "m6"): "same change as C11 m4 (independent agents)",
+    ("C10", "m7"): "concurrent unlink and re-link of one edge: C10 drives the engine from one goroutine; C13 caught it once it asked whether the outgoing and incoming views of its edges agree after the run (a first 'caught by C10' was the ticker false alarm of section 10.4)",
+    ("C10", "m8"): "a physical unlink while a compaction dumps the same adjacency list, then a restart: caught by C13 after hard unlinks and the 'linked, never unlinked, still there after restart' oracle were added",
     # round 4 (schedule / crash point / clock only)
     ("C01", "m7"): "a key-value write racing the start of a compaction: C01 drives the engine from one goroutine; caught by C14 (concurrent writers + admin, acknowledged-write oracle)",
     ("C01", "m8"): "writes during the *second* snapshot of a process: caught by C14",
@@ -74,7 +76,7 @@ NOTES = {
     ("C16", "m8"): "same change as C01 m7, seen through a revocation: caught by C14",
     ("C12", "m7"): "missed at first: C12's crash images ended on frame boundaries; images in the middle of a log write (torn tail) added",
     ("C13", "m7"): "missed at first: nobody updated the metadata of a node somebody else deletes; setmeta / reinforce of the shared ids added (three-party lock cycle with a snapshot, reported as a stall)",
-    ("C13", "m8"): "missed at first: C13 never issued a batch insert; overlapping batches with metadata added - the free-running -race tier sees the unlocked map read",
+    ("C13", "m8"): "missed at first: C13 never issued a batch insert; overlapping batches with metadata added - the free-running -race tier sees the unlocked map read (sampling of real executions: 400 per quick run; one of three sensitivity runs at 200 missed it)",
     ("C13", "m9"): "agent's extra deliverable (adopted as m9): missed at first, overlapping batches were too rare; every client now also starts with one in a third of the runs (lock-order cycle, reported as a stall)",
     ("C14", "m7"): "a delete between its journal write and its cascade registration when a snapshot starts, then Close: a graph effect, caught by C12 (C14 has no edges)",
     ("C18", "m7"): "missed at first: the arena state was only saved with everything stopped; a save concurrent with the mutator and its consistency oracle added",
